@@ -222,6 +222,7 @@ def default_class_family():
             cd = ObjectClassDict()
             cd["a"] = Property(Integer(default=1))
             cd["z"] = Property(String(default="zz"))
+            cd["kind_"] = Property(String(default="k"), source="kind")
             kw = {} if parent_default is NP else {"default": copy.deepcopy(parent_default)}
             parent = ObjectMeta("Par", (Object,), cd, **kw)
             cd2 = ObjectClassDict()
@@ -284,6 +285,13 @@ def novalue_sequences(st, lo, hi):
                             st.violation("no-value-default-not-converted:class", "%s: %s() should equal %s(%r) = %r, got %r" % (label, c, c, eff, r2, r), case)
                     elif impl.canon_result(r) != impl.canon_result(eff):
                         st.violation("no-value-invalid-default-altered:class", "%s: %s() should return the invalid default %r as is, got %r" % (label, c, eff, r), case)
+        # inherited renamed property: supplied under its JSON name it must win over the default, in parent and child alike
+        for c in ("parent", "child"):
+            classes = fac()
+            k, r = impl.do_call(classes[c], {"kind": "supplied", "a": 7})
+            st.add("evaluations")
+            if k != impl.ACCEPT or getattr(r, "kind_", None) != "supplied" or getattr(r, "a", None) != 7:
+                st.violation("supplied-value-replaced:inherited-renamed", "%s: %s({'kind': 'supplied', 'a': 7}) -> %s %r" % (label, c, k, r), {"family": label, "sequence": [c + "({'kind': 'supplied'})"]})
         # histories of length 2 and 3 on ONE family: every later call must behave as it does alone
         for seq in list(it.permutations(calls, 2)) + [("parent", "child", "holder"), ("holder", "child", "parent"), ("child", "parent", "child"), ("parent", "parent", "child")]:
             classes = fac()
